@@ -12,6 +12,7 @@
 
 KSI_LIST(KSI_TlvElement) g_el_list;
 size_t g_el_len, g_el_calls, g_el_pos, g_el_sum, g_el_cur;
+_Bool g_el_cur_bad, g_el_any_bad;   /* the child handed out last / some child has content that exceeds the 16-bit length field (its serialization is refused) */
 size_t g_el_w, g_el_w_right, g_el_w_size;     /* witness child: index (never written), octets to its right, its size */
 struct KSI_TlvElement_st g_el_child;
 _Bool g_el_fit_only; size_t g_el_bufsize;
@@ -23,6 +24,7 @@ static int el_stub_elementAt(KSI_LIST(KSI_TlvElement) *l, size_t pos, KSI_TlvEle
 	__CPROVER_assert(pos == g_el_len - 1 - g_el_calls, "list protocol: children are taken from the last to the first, each once");
 	g_el_child.ftlv.tag = nondet_uint() & 0x1fff;
 	g_el_cur = nondet_size();
+	g_el_cur_bad = nondet_bool(); if (g_el_cur_bad) g_el_any_bad = 1;
 	if (g_el_fit_only) __CPROVER_assume(g_el_cur <= g_el_bufsize - g_el_sum);   /* case split: children that fit */
 	if (pos == g_el_w) { g_el_w_right = g_el_sum; g_el_w_size = g_el_cur; }
 	g_el_sum += g_el_cur;
@@ -34,7 +36,7 @@ static int el_stub_elementAt(KSI_LIST(KSI_TlvElement) *l, size_t pos, KSI_TlvEle
 static void el_setup(void) {
 	memset(&g_el_list, 0, sizeof(g_el_list));
 	g_el_list.length = el_stub_length; g_el_list.elementAt = el_stub_elementAt;
-	g_el_len = nondet_size(); g_el_calls = 0; g_el_sum = 0; g_el_w = nondet_size();
+	g_el_len = nondet_size(); g_el_calls = 0; g_el_sum = 0; g_el_w = nondet_size(); g_el_cur_bad = 0; g_el_any_bad = 0;
 }
 
 /* ---------------- (B) building side: convertToNested ---------------- */
